@@ -34,7 +34,7 @@ Section Proofs.
   (* the per-field serializer of the fast path and of the regular path agree on every value *)
   Lemma fast_val_same fc sc sc0 : forall tf v,
       plain_tf tf = true ->
-      fast_val sser ofast e fc tf v = ser_val re_match sser oser sc sc0 tf v.
+      fast_val sser ofast fc tf v = ser_val re_match sser oser sc sc0 tf v.
   Proof.
     induction tf as [l|item IH|item IH|c|nf f IH|ls|id o]; intros v Hp; cbn [plain_tf] in Hp; try discriminate.
     - cbn [fast_val ser_val]. apply fast_leaf_same. apply negb_true_iff. exact Hp.
@@ -44,7 +44,6 @@ Section Proofs.
       destruct item as [[f| | |id isnum]| | | | | |]; try reflexivity; try (cbn [plain_tf] in Hp1; discriminate).
       destruct isnum; [discriminate|reflexivity].
     - cbn [fast_val ser_val]. destruct v; try reflexivity.
-      rewrite (mapM_ext _ _ l (fun x => IH x Hp)).
-      destruct item; try reflexivity. cbn [plain_tf] in Hp. discriminate.
+      rewrite (mapM_ext _ _ l (fun x => IH x Hp)). reflexivity.
   Qed.
 End Proofs.
